@@ -547,8 +547,19 @@ def fault_cases(tier):
                 yield {'geo': geo, 'target': 'stm32', 'override': None, 'length': n, 'plan': list(plan), 'progress': (k + len(plan[0])) % 2 == 0}
 
 
+def long_fault_cases(tier):
+    """one kind of fault repeated 5, 6, 7 and 12 times in a row (around and beyond the retry budget), at the first and at a later flash-write"""
+    for (ps, bp, n) in ((16, 2, 70), (25, 1, 50)):
+        geo = {'page_size': ps, 'buffer_pages': bp, 'flash_pages': 40, 'start_page': 3}
+        for act in ('lost', 'lost-command', 'wrong', 'negative', 'negative-noerr', 'late'):
+            for reps in (5, 6, 7, 12):
+                for lead in ([], ['ok']):
+                    yield {'geo': geo, 'target': 'stm32', 'override': None, 'length': n, 'plan': lead + [act] * reps, 'progress': reps % 2 == 0}
+
+
 def subchecks(tier):
     return [
+        Sub('faults-repeated', run_flash, cases=long_fault_cases, distinct_by_construction=True),
         Sub('flash', run_flash, strategy=flash_case(), examples={'quick': 1200, 'thorough': 60000}),
         Sub('faults-exhaustive', run_flash, cases=fault_cases, distinct_by_construction=True),
         Sub('release-zip', run_release, strategy=release_case(), examples={'quick': 150, 'thorough': 6000}),
